@@ -17,6 +17,7 @@ TOOL = 3
 _ACTIVE = None          # the Execution currently scheduling (one per process)
 _MON_READY = False
 _MONITORED = set()
+_FOCUS = None
 
 
 def _line_cb(code, lineno):
@@ -27,6 +28,27 @@ def _line_cb(code, lineno):
         except BaseException:  # noqa: BLE001 - the callback must never raise into the monitored frame
             ex.internal_error('line callback: %r' % (sys.exc_info()[1],))
     return None
+
+
+def set_focus(funcs):
+    """Restrict LINE scheduling points to the code objects of `funcs` (None: all monitored functions again).
+    Synchronisation doubles stay scheduling points in any case."""
+    global _FOCUS
+    mon = sys.monitoring
+    key = None if funcs is None else tuple(sorted(id(f) for f in funcs))
+    if key == _FOCUS:
+        return
+    _FOCUS = key
+    keep = None
+    if funcs is not None:
+        keep = set()
+        for f in funcs:
+            code = getattr(f, '__code__', None) or getattr(getattr(f, '__func__', None), '__code__', None) \
+                or getattr(getattr(f, 'fget', None), '__code__', None)
+            if code is not None:
+                keep.add(code)
+    for code in _MONITORED:
+        mon.set_local_events(TOOL, code, mon.events.LINE if (keep is None or code in keep) else 0)
 
 
 def monitor_functions(funcs):
@@ -48,7 +70,7 @@ def monitor_functions(funcs):
 
 
 class TState:
-    __slots__ = ('blocked_in', 'error', 'fn', 'idx', 'last', 'name', 'pred', 'sem', 'status', 'thread')
+    __slots__ = ('blocked_in', 'error', 'fn', 'idx', 'last', 'name', 'pred', 'sem', 'status', 'thread', 'started', 'sym')
 
     def __init__(self, idx, name, fn):
         self.idx = idx
@@ -61,6 +83,9 @@ class TState:
         self.error = None
         self.last = None
         self.blocked_in = None
+        self.started = False
+        self.sym = None       # threads with the same non-None tag run identical code: of those that have not started yet only
+        #                       the one with the lowest index is offered to the scheduler (symmetry reduction)
 
 
 class Execution:
@@ -78,10 +103,14 @@ class Execution:
         self.mu = threading.Lock()
         self.observer = None      # callable(ex, thread_state, code_name, lineno) for collision counters
         self.released = threading.Event()
+        self.post_wait_point = False
+        self.expirable = None     # None: timed waits never expire; number: a timed select/poll of at most that many seconds may
+        #                           expire, as an environment choice that costs one deviation
 
     # -- construction -------------------------------------------------------------------------
-    def add_thread(self, name, fn):
+    def add_thread(self, name, fn, sym=None):
         t = TState(len(self.threads), name, fn)
+        t.sym = sym
         self.threads.append(t)
         return t
 
@@ -104,6 +133,12 @@ class Execution:
                         out.append(t)
                 except Exception as exc:  # noqa: BLE001
                     self.errors.append('predicate of %s raised %r' % (t.name, exc))
+        seen_sym = set()
+        for t in list(out):
+            if t.sym is not None and not t.started:
+                if t.sym in seen_sym:
+                    out.remove(t)
+                seen_sym.add(t.sym)
         if me is not None and me in out:
             out.remove(me)
             out.insert(0, me)
@@ -135,6 +170,27 @@ class Execution:
         self.current = nxt
         nxt.sem.release()
         me.sem.acquire()
+
+    def env_choice(self, k):
+        """An environment answer with k alternatives (0 = default); every alternative costs one deviation."""
+        i = len(self.points)
+        if i >= self.maxpoints:
+            return 0
+        self.points.append((tuple(-1 - j for j in range(k)), True))
+        c = self.prefix[i] if i < len(self.prefix) else 0
+        if c >= k:
+            self.errors.append('replay diverged at point %d: environment choice %d of %d' % (i, c, k))
+            c = 0
+        self.choices.append(c)
+        return c
+
+    def after_wait(self, kind):
+        """optional scheduling point right after a blocking wait has returned (what it returned is fixed already)"""
+        if self.post_wait_point and self.active:
+            self.point(kind + '.returned')
+
+    def may_expire(self, timeout):
+        return self.expirable is not None and timeout is not None and 0 < timeout <= self.expirable and self.env_choice(2) == 1
 
     def point(self, where=None, lineno=None):
         if not self.active:
@@ -187,6 +243,7 @@ class Execution:
     def _body(self, t):
         self.by_ident[threading.get_ident()] = t
         t.sem.acquire()
+        t.started = True
         try:
             t.fn()
         except BaseException as exc:  # noqa: BLE001
@@ -352,8 +409,13 @@ class _SPoll:
             blocking = timeout is None or timeout < 0 or timeout > 0
             if ready or not blocking:
                 return ready
+            if ex.may_expire(None if timeout is None else (timeout / 1000.0 if self._kind == 'poll' else timeout)):
+                ex.after_wait(self._kind)
+                return []
             ex.block(lambda: bool(self._real.poll(0)), '%s.poll(%r)' % (self._kind, timeout))
-            return self._real.poll(0)
+            ready = self._real.poll(0)
+            ex.after_wait(self._kind)
+            return ready
         return self._real.poll(0.0005 if self._kind == 'epoll' else 1)
 
 
@@ -370,8 +432,13 @@ class SSelect:
             res = _real_select.select(r, w, x, 0)
             if any(res) or (timeout is not None and timeout == 0):
                 return res
+            if ex.may_expire(timeout):
+                ex.after_wait('select')
+                return res
             ex.block(lambda: any(_real_select.select(r, w, x, 0)), 'select.select(%r)' % (timeout,))
-            return _real_select.select(r, w, x, 0)
+            res = _real_select.select(r, w, x, 0)
+            ex.after_wait('select')
+            return res
         return _real_select.select(r, w, x, 0.0005)
 
     def poll(self):
